@@ -32,6 +32,7 @@ and every scalar must be equal.
 import os
 import shutil
 
+from vlib import c24_static as S
 from vlib import gen_lfric_alg as G
 from vlib import lfric_rt as rt
 from vlib.runner import HarnessError
@@ -207,10 +208,42 @@ def run(ctx):
     # code path only); never set by the registered commands
     ctx.hyp(prop, G.batches(BATCH, rot, os.environ.get("VERIF_C24_PATH")),
             max_examples=nbatches, shrink=False)
+
+    # ---- static family: stencil + quadrature arguments (vlib/c24_static) --
+    repo = os.environ.get("VERIF_REPO", "/repo")
+    sdir = os.path.join(shard_dir, "static")
+
+    def static_prop(case):
+        ctx.case()
+        got = S.generate(case, sdir, repo)
+        ctx.label(f"static:{got[0]}")
+        if got[0] != "ok":
+            ctx.discard(f"static {got[0]}: {got[1][:80]}")
+            return
+        if S.nontrivial(case):
+            ctx.label("static:stencil-variable+quadrature-in-one-invoke")
+            ctx.nontriv(["static", case])
+        fail = S.judge(case, got[1], got[2])
+        if fail:
+            ctx.fail("default:" + fail[0], {"static": case}, fail[1])
+
+    ctx.hyp(static_prop, S.cases(), max_examples=ctx.scale(480, 16000),
+            salt=70, key=lambda c: c, shrink_budget=40)
     shutil.rmtree(shard_dir, ignore_errors=True)
 
 
 def replay(case):
+    if "static" in case:
+        wdir = os.path.join(ROOT, f"sreplay{os.getpid()}")
+        try:
+            got = S.generate(case["static"], wdir,
+                             os.environ.get("VERIF_REPO", "/repo"))
+        finally:
+            shutil.rmtree(wdir, ignore_errors=True)
+        if got[0] != "ok":
+            return None
+        fail = S.judge(case["static"], got[1], got[2])
+        return f"[default:{fail[0]}] {fail[1]}" if fail else None
     state = {}
     tools = _tools(state)
     wdir = os.path.join(ROOT, f"replay{os.getpid()}")
